@@ -315,15 +315,13 @@ class FakeStreamClient:
         resp = AsyncMock()
         resp.status_code = 200
 
-        async def aiter_lines() -> AsyncIterator[str]:
+        async def aiter_text() -> AsyncIterator[str]:
             for seq, env in events:  # type: ignore[union-attr]
-                yield f"id: {seq}"
-                yield f"data: {env.model_dump_json()}"
-                yield ""
+                yield f"id: {seq}\ndata: {env.model_dump_json()}\n\n"
             if tail_error is not None:
                 raise tail_error
 
-        resp.aiter_lines = aiter_lines
+        resp.aiter_text = aiter_text
         yield resp
 
 
@@ -354,6 +352,30 @@ async def test_reconnect_resumes_from_last_sequence() -> None:
     assert [e.value["msg"] for e in events] == ["first", "second", "third"]
     assert fake.captured_params[0]["after_sequence"] == "-1"
     assert fake.captured_params[1]["after_sequence"] == "0"
+
+
+@pytest.mark.asyncio
+async def test_stream_keeps_unicode_line_separators_in_payload() -> None:
+    # U+2028 / U+0085 are line boundaries for str.splitlines() but not for SSE
+    e1, e2 = _envelope("line\u2028sep"), _envelope("next\u0085line")
+    body = "".join(
+        f"id: {seq}\ndata: {env.model_dump_json()}\n\n"
+        for seq, env in enumerate([e1, e2])
+    )
+
+    def handle(request: httpx.Request) -> httpx.Response:
+        return httpx.Response(
+            200,
+            content=body.encode("utf-8"),
+            headers={"content-type": "text/event-stream; charset=utf-8"},
+        )
+
+    httpx_client = AsyncClient(
+        transport=httpx.MockTransport(handle), base_url="http://test"
+    )
+    wf_client = WorkflowClient(httpx_client=httpx_client)
+    events = [e async for e in wf_client.get_workflow_events(handler_id="h")]
+    assert [e.value["msg"] for e in events] == ["line\u2028sep", "next\u0085line"]
 
 
 @pytest.mark.asyncio
